@@ -49,6 +49,12 @@ def build_problem(space):
         p.add_condition(cs.EqualsCondition(mom, kind, "sgd"))
         p.add_condition(cs.EqualsCondition(b1, kind, "adam"))
         p.add_condition(cs.GreaterThanCondition(wd, nl, 2))
+    elif space == "discrete":
+        # fully discrete and small (80 points) with a string-valued categorical: every batch of candidates contains duplicates and already
+        # sampled points, and the points hash differently in processes with different PYTHONHASHSEED
+        p.add_hyperparameter((0, 4), "depth")
+        p.add_hyperparameter(["sgd", "adam", "adagrad", "rms"], "opt")
+        p.add_hyperparameter((0, 3), "width")
     elif space == "forbid":
         a = p.add_hyperparameter((0, 9), "a")
         b = p.add_hyperparameter(["u", "v", "w"], "b")
@@ -69,16 +75,29 @@ def num(v):
     return float(sum((i + 1) * ord(c) for i, c in enumerate(s)) % 17)
 
 
-def objective(cfg, nobj, fail_mod):
+def objective(cfg, nobj, fail_mod, fail_region=0.0):
     vals = [num(cfg[k]) for k in sorted(cfg)]
     t = sum(math.sin(0.7 * (i + 1) * v) + 0.05 * v for i, v in enumerate(vals))
     if fail_mod and int(abs(t) * 1000) % fail_mod == 0:
         return "F_c07"
+    # the run-function fails on the part of the domain around the optimum (t = 1): the model-based suggestions, not only the initial
+    # points, run into failures (filter_failures paths, Optimizer.update_next)
+    if fail_region and abs(t - 1.0) < fail_region:
+        return "F_region"
     if nobj == 1:
         return -((t - 1.0) ** 2)
     u = sum(math.cos(0.3 * (i + 2) * v) for i, v in enumerate(vals))
     objs = [-((t - 1.0) ** 2), -abs(u), t * 0.1 - u * 0.2]
     return tuple(objs[:nobj])
+
+
+def _unrepr(v, t):
+    import ast as _ast
+
+    try:
+        return _ast.literal_eval(v)
+    except Exception:
+        return v
 
 
 def enc(cfg):
@@ -99,13 +118,13 @@ def run_one(spec, random_state=None):
     from deephyper.hpo import CBO, RandomSearch, RegularizedEvolution
 
     problem = build_problem(spec["space"])
-    nobj, fail_mod = int(spec.get("nobj", 1)), int(spec.get("fail_mod", 0))
+    nobj, fail_mod, fail_region = int(spec.get("nobj", 1)), int(spec.get("fail_mod", 0)), float(spec.get("fail_region", 0.0))
     asked = []
 
     async def run(job):
         cfg = dict(job.parameters)
         asked.append(enc(cfg))
-        return objective(cfg, nobj, fail_mod)
+        return objective(cfg, nobj, fail_mod, fail_region)
 
     out = {}
     with tempfile.TemporaryDirectory(prefix="vp_c07_%d_" % k) as d:
@@ -130,7 +149,7 @@ def run_one(spec, random_state=None):
                     res = []
                     for cfg in cfgs:
                         asked.append(enc(cfg))
-                        res.append((cfg, objective(cfg, nobj, fail_mod)))
+                        res.append((cfg, objective(cfg, nobj, fail_mod, fail_region)))
                     search.tell(res)
                     done += n
         except Exception as e:  # the proposals made so far are still the observable; the parent compares the error class as well
@@ -143,6 +162,7 @@ def run_one(spec, random_state=None):
         g1 = (np.random.get_state()[1].tobytes(), np.random.get_state()[2], random.getstate())
         out["globals_touched"] = [g0[0] != g1[0] or g0[1] != g1[1], g0[2] != g1[2]]
     out["asked"] = asked
+    out["failed_at"] = [i for i, c in enumerate(asked) if isinstance(objective({k: _unrepr(v, t) for k, v, t in c}, nobj, fail_mod, fail_region), str)]
     return out
 
 
